@@ -77,6 +77,36 @@ def available(names):
     return {i for i, n in enumerate(names) if prim_tags.get(n) == bytes([i])}
 
 
+DEPRECATED_TAGS = {28}      # CREATE_ACCOUNT: the only protocol primitive pytezos does not carry under its protocol name (pinned tree)
+
+
+def check_table(ctx, names):
+    """The primitive table is part of the encoding: every protocol primitive (the model's table, transcribed from the protocol) is
+    written as its tag and read back from it.  Only the known deprecated entry is outside the compared domain."""
+    for tag, name in enumerate(names):
+        if tag in DEPRECATED_TAGS:
+            continue
+        ctx.count(('table', tag), nontrivial=True)
+        f = impl_forge({'prim': name})
+        u = impl_unforge(bytes([3, tag]))
+        if f != ('ok', bytes([3, tag])) or u != ('ok', {'prim': name}):
+            ctx.mismatch('C05:table:primitive:%s' % name, 'primitive %s has tag 0x%02x: forge_micheline gives %s, unforge_micheline(03%02x) gives %s' % (
+                name, tag, f[1].hex() if f[0] == 'ok' else f, tag, u[1] if u[0] == 'ok' else u), {'kind': 'table', 'tag': tag, 'name': name})
+
+
+    # strings are length-prefixed in bytes of their UTF-8 text, whatever the characters (also next to other nodes)
+    for text in ('\u00e9', 'a\u00fc\u20ac', '\u65e5\u672c', 'x' * 127 + '\u00e9'):
+        raw = text.encode('utf-8')
+        want = b'\x01' + len(raw).to_bytes(4, 'big') + raw
+        for expr, wb in (({'string': text}, want), ([{'string': text}, {'prim': 'Unit'}], b'\x02' + (len(want) + 2).to_bytes(4, 'big') + want + b'\x03\x0b')):
+            ctx.count(('text', text, isinstance(expr, list)), nontrivial=True)
+            f = impl_forge(expr)
+            u = impl_unforge(wb)
+            if f != ('ok', wb) or u != ('ok', expr):
+                ctx.mismatch('C05:text:non-ascii-string', 'string %r: forge_micheline gives %s (Tezos: %s), unforge_micheline of the Tezos bytes gives %s' % (
+                    text, f[1].hex() if f[0] == 'ok' else f, wb.hex(), u[1] if u[0] == 'ok' else u), {'kind': 'text', 'text': text})
+
+
 def to_expr(n, names):
     k = n[0]
     if k == 'int':
@@ -353,6 +383,7 @@ def leg_c(ctx, names):
 def run(ctx):
     names = prim_names()
     avail = available(names)
+    check_table(ctx, names)
     missing = sorted(set(range(len(names))) - avail)
     if len(missing) > 4:
         raise MachineryError('pytezos tags.py disagrees with the protocol table on %d primitives: %s' % (len(missing), missing[:10]))
@@ -419,6 +450,9 @@ def replay(ctx, rep):
         ok = validate_cases(ctx, [c['case']])
     elif c['kind'] == 'script':
         leg_c(ctx, names)
+        ok = not ctx.mismatches
+    elif c['kind'] in ('table', 'text'):
+        check_table(ctx, names)
         ok = not ctx.mismatches
     else:
         ok = True
